@@ -263,6 +263,22 @@ func renderWire(b []byte) string {
 	}
 	var fs []kv
 	k, seq := "?", "?"
+	sender, isReplay := "", false
+	for _, f := range strings.Split(strings.TrimSuffix(string(b), "\x01"), "\x01") {
+		if strings.HasPrefix(f, "49=") {
+			sender = f[3:]
+		}
+		if strings.HasPrefix(f, "34=") {
+			seq = f[3:]
+		}
+		if strings.HasPrefix(f, "35=") {
+			k = f[3:]
+		}
+		if f == "43=Y" {
+			isReplay = true
+		}
+	}
+	isReplay = isReplay && k != "4"
 	for _, f := range strings.Split(strings.TrimSuffix(string(b), "\x01"), "\x01") {
 		eq := strings.IndexByte(f, '=')
 		if eq < 0 {
@@ -279,7 +295,15 @@ func renderWire(b []byte) string {
 			continue
 		}
 		if tag == "122" {
-			val = "+"
+			// OrigSendingTime of a replayed message (43=Y, not a gap fill) equals the SendingTime the message was stored
+			// with: "+" if so (or if nothing is known about the original), "!" if it differs
+			orig := "+"
+			if isReplay {
+				if st, ok := savedSendingTime[sender+"/"+seq]; ok && st != val {
+					orig = "!"
+				}
+			}
+			val = orig
 		}
 		n, _ := strconv.Atoi(tag)
 		fs = append(fs, kv{n, val})
